@@ -62,7 +62,10 @@ void compute_delj(double *dx, double *MInt, double *VInt,
     for(ii=0; ii < N-1; ii++){
         wj = 2 * MInt[ii] * dx[ii];
         epsj = exp(wj/VInt[ii]);
-        if((epsj != 1.0) && (wj != 0))
+        if(isinf(epsj))
+            /* exp overflowed: limit of the expression below as epsj -> inf */
+            delj[ii] = 1 - VInt[ii]/wj;
+        else if((epsj != 1.0) && (wj != 0))
             delj[ii] = (-epsj*wj + epsj*VInt[ii] - VInt[ii])/(wj - epsj*wj);
         else
             delj[ii] = 0.5;
